@@ -404,10 +404,12 @@ def module_code(idx, d, text, info):
     A = L.append
     A(f'pub mod m{idx} {{')
     A('#![allow(dead_code, unused_variables, unused_mut, non_snake_case, non_camel_case_types, unreachable_patterns, unused_imports, unused_assignments, private_interfaces)]')
+    # the definition and the user's hooks live in `def`; the harness drives the machine from the enclosing
+    # module, as a caller elsewhere would (everything the macro generates for callers must be `pub`)
+    A('pub mod def {')
     A('use crate::rt::{self, Named, HasId, Ctx, Pay, D};')
     A('use state_machines::state_machine;')
     A('use state_machines::core::{AroundOutcome, AroundStage, TransitionError, TransitionErrorKind};')
-    A('use std::panic::{catch_unwind, AssertUnwindSafe};')
     A('state_machine! {')
     A(text)
     A('}')
@@ -415,22 +417,23 @@ def module_code(idx, d, text, info):
         A(f'impl Named for {s} {{ const NAME: &\'static str = "{s}"; }}')
     # hooks
     A(f'{hdr} {{')
-    A('  fn slots_text(&self) -> String {')
+    A('  pub fn ctx_id(&self) -> u32 { rt::cid(&self.ctx) }')
+    A('  pub fn slots_text(&self) -> String {')
     A('    let v: Vec<String> = vec![' + ', '.join(
         f'format!("{st["field"]}={{}}", rt::onat(self.{st["opt"]}().map(|d| d.0)))' for st in info['storage']) + '];')
     A('    v.join(";")')
     A('  }')
-    A('  fn apply_write(&mut self, w: &Option<(String, u32)>) {')
+    A('  pub fn apply_write(&mut self, w: &Option<(String, u32)>) {')
     A('    if let Some((f, v)) = w { match f.as_str() {')
     for st in info['storage']:
         A(f'      "{st["field"]}" => {{ if let Some(d) = self.{st["opt"]}_mut() {{ d.0 = *v; }} }}')
     A('      _ => {} } }')
     A('  }')
-    A('  fn opt_get(&self, st: &str) -> Option<Option<u32>> { match st {')
+    A('  pub fn opt_get(&self, st: &str) -> Option<Option<u32>> { match st {')
     for st in info['storage']:
         A(f'      "{st["state"]}" => Some(self.{st["opt"]}().map(|d| d.0)),')
     A('      _ => None } }')
-    A('  fn opt_set(&mut self, st: &str, v: u32) -> Option<Option<u32>> { match st {')
+    A('  pub fn opt_set(&mut self, st: &str, v: u32) -> Option<Option<u32>> { match st {')
     for st in info['storage']:
         A(f'      "{st["state"]}" => Some(match self.{st["opt"]}_mut() {{ Some(d) => {{ let o = d.0; d.0 = v; Some(o) }} None => None }}),')
     A('      _ => None } }')
@@ -456,6 +459,11 @@ def module_code(idx, d, text, info):
             A('        rt::Abort::A(n) => TransitionErrorKind::ActionFailed { action: rt::leak(&n) },')
             A('        rt::Abort::I => TransitionErrorKind::InvalidTransition } }) } }')
     A('}')
+    A('}')   # end of `def`
+    A('use def::*;')
+    A('use crate::rt::{self, Named, HasId, Ctx, Pay, D};')
+    A('use state_machines::core::{AroundOutcome, AroundStage, TransitionError, TransitionErrorKind};')
+    A('use std::panic::{catch_unwind, AssertUnwindSafe};')
     # holder
     A('enum HAny { ' + ', '.join(f'{s}({MT(s)})' for s in states) + ' }')
     # the state a typed call lands in is read off the type the method really returns, not off the model
@@ -469,7 +477,7 @@ def module_code(idx, d, text, info):
     A('  Hold::Gone => "gone".to_string(),')
     A('  Hold::T(a) => match a {')
     for s in states:
-        A(f'    HAny::{s}(m) => format!("typed:{s}:{{}}:{{}}", rt::cid(&m.ctx), m.slots_text()),')
+        A(f'    HAny::{s}(m) => format!("typed:{s}:{{}}:{{}}", m.ctx_id(), m.slots_text()),')
     A('  },')
     if dyn:
         A('  Hold::D(d) => {')
